@@ -640,3 +640,68 @@ def m_from_id(it, st, callee, args, dest_tid, site):
        doc='iterator over the N elements of an array reference, in order')
 def m_array_into_iter(it, st, callee, args, dest_tid, site):
     return [(st, Opaque('slice_iter', sl=as_slice(it, st, args[0]), pos=usz(0)))]
+
+@model("<std::slice::Iter<'a, T> as std::iter::Iterator>::all", 'std::iter::Iterator::all',
+       doc='forall-quantifier over the items of a small constant-length source (unrolled, short-circuit)')
+def m_all(it, st, callee, args, dest_tid, site):
+    p, f = args
+    v = it.read(st, p.obj, p.path) if isinstance(p, Ptr) else p
+    d = iter_describe(it, st, v)
+    if d is None or not (d['n'].is_const and d['n'].val <= 8 and d.get('elem')):
+        raise Unsupported(f"all over {v!r}")
+    states = [(st, X.cbool(True))]
+    for i in range(d['n'].val):
+        nxt = []
+        for s, acc in states:
+            if acc.is_const and not acc.val:
+                nxt.append((s, acc)); continue
+            for s2, r in call_closure_any(it, s, f, [d['elem'](s, usz(i))]):
+                nxt.append((s2, X.binop('and', acc, r)))
+        states = nxt
+    return states
+
+def _checked(op):
+    def m(it, st, callee, args, dest_tid, site):
+        a, b = args
+        v, ovf = it.int_arith(st, op, a, b, a.ty, True)
+        dec = it.decide(st, X.unop('not', ovf))
+        if dec is True:
+            return [(st, some(it, dest_tid, v))]
+        if dec is False:
+            return [(st, none(it, dest_tid))]
+        s2 = st.clone()
+        out = []
+        try:
+            st.assume(X.unop('not', ovf)); out.append((st, some(it, dest_tid, v)))
+        except PathEnd:
+            pass
+        try:
+            s2.assume(ovf); out.append((s2, none(it, dest_tid)))
+        except PathEnd:
+            pass
+        return out
+    return m
+for _t in ('usize', 'u32', 'u64', 'u16', 'u8', 'i32', 'i64', 'isize'):
+    for _op in ('add', 'sub', 'mul'):
+        _EXACT[f'core::num::<impl {_t}>::checked_{_op}'] = _checked(_op)
+        MODEL_DOC[f'core::num::<impl {_t}>::checked_{_op}'] = 'checked integer arithmetic: Some(result) unless the mathematical result leaves the type'
+
+@model('core::f32::<impl f32>::is_nan', 'core::f64::<impl f64>::is_nan', doc='x != x')
+def m_is_nan(it, st, callee, args, dest_tid, site):
+    return [(st, X.binop('ne', args[0], args[0]))]
+
+@model('core::f32::<impl f32>::is_finite', 'core::f64::<impl f64>::is_finite', doc='|x| < inf (false for NaN)')
+def m_is_finite(it, st, callee, args, dest_tid, site):
+    import math
+    return [(st, X.binop('lt', X.fcall('abs', [args[0]]), X.const(args[0].ty, math.inf)))]
+
+@model('core::f32::<impl f32>::is_infinite', 'core::f64::<impl f64>::is_infinite', doc='|x| == inf')
+def m_is_infinite(it, st, callee, args, dest_tid, site):
+    import math
+    return [(st, X.binop('eq', X.fcall('abs', [args[0]]), X.const(args[0].ty, math.inf)))]
+
+@model('core::f32::<impl f32>::is_sign_negative', 'core::f32::<impl f32>::is_sign_positive', doc='sign bit test')
+def m_sign(it, st, callee, args, dest_tid, site):
+    b = X.cast('bits', args[0], X.U32)
+    neg = X.binop('ne', X.node('iand', (b, X.const(X.U32, 0x80000000)), X.U32) if not b.is_const else X.binop('and', b, X.const(X.U32, 0x80000000)), X.const(X.U32, 0))
+    return [(st, neg if callee['def'].endswith('negative') else X.unop('not', neg))]
